@@ -1,7 +1,7 @@
 #!/bin/bash
 # try_seed.sh <ID> [tier] [patchdir] — run the CURRENT /verif (synced to a scratch copy) against a checkout with a seeded change applied.
 ID="$1"; TIER="${2:-quick}"; SRC="${3:-/tmp/seed/out/$ID}"
-R=${TRY_REPO:-/tmp/seed/repo3}; V=${TRY_VERIF:-/tmp/seed/verif3}
+R=${TRY_REPO:-/tmp/seed/repo5}; V=${TRY_VERIF:-/tmp/seed/verif5}
 rsync -a --delete --exclude .git --exclude .build --exclude replays --exclude evidence /verif/ $V/
 git -C $R checkout -q -- . ; git -C $R clean -fdq
 git -C $R checkout -q --detach $(git -C /repo rev-parse HEAD)   # always the current /repo HEAD
